@@ -206,6 +206,9 @@ func ParseSliceHeader(nalu []byte, spsMap map[uint32]*SPS, ppsMap map[uint32]*PP
 					return sh, fmt.Errorf("short_term_ref_pic_set_idx > num_short_term_ref_pic_sets")
 				}
 				sh.ShortTermRefPicSet = sps.ShortTermRefPicSets[sh.ShortTermRefPicSetIdx]
+			} else if len(sps.ShortTermRefPicSets) == 1 {
+				// short_term_ref_pic_set_idx is not coded and inferred to be 0
+				sh.ShortTermRefPicSet = sps.ShortTermRefPicSets[0]
 			}
 			NumPicTotalCurr += sh.ShortTermRefPicSet.countInUsePics()
 
@@ -224,6 +227,9 @@ func ParseSliceHeader(nalu []byte, spsMap map[uint32]*SPS, ppsMap map[uint32]*PP
 								return sh, fmt.Errorf("lt_idx_sps > num_long_term_ref_pics_sps")
 							}
 							lt = sps.LongTermRefPicSets[LtIdxSps]
+						} else if len(sps.LongTermRefPicSets) == 1 {
+							// lt_idx_sps is not coded and inferred to be 0
+							lt = sps.LongTermRefPicSets[0]
 						}
 					} else {
 						lt.PocLsbLt = uint16(r.Read(int(sps.Log2MaxPicOrderCntLsbMinus4 + 4)))
